@@ -161,6 +161,10 @@ namespace ip {
 			m_forwarder.reset();
 		}
 
+		// datagrams that were received but never read are gone with the socket
+		m_incoming_queue.clear();
+		m_queue_size = 0;
+
 		cancel(ec);
 	}
 	catch (std::bad_alloc const&)
